@@ -746,15 +746,20 @@ def cfg_shape(cfg):
     return mode + ":" + ("mixed" if n and s else "ids" if s else "numbers" if n else "empty")
 
 
-def shrink(hist, fails):
-    """Greedy one-at-a-time removal keeping the failure."""
+def shrink(hist, fails, passes=4):
+    """Greedy one-at-a-time removal keeping the failure, repeated until nothing more can be removed."""
     h = list(hist)
-    i = len(h) - 1
-    while i >= 0 and len(h) > 1:
-        t = h[:i] + h[i + 1:]
-        if fails(t):
-            h = t
-        i -= 1
+    for _ in range(passes):
+        n0 = len(h)
+        i = len(h) - 1
+        while i >= 0 and len(h) > 1:
+            t = h[:i] + h[i + 1:]
+            if fails(t):
+                h = t
+            i -= 1
+            i = min(i, len(h) - 1)
+        if len(h) == n0:
+            break
     return h
 
 
